@@ -3,6 +3,7 @@ package rules
 import (
 	"fmt"
 	"go/token"
+	"strings"
 
 	"golang.org/x/tools/go/ssa"
 
@@ -25,6 +26,7 @@ func runC09(r *engine.Run) {
 	r.Rule("DOM-dirty-path", "in insert and delete, an arm that descended into a child and returns its own node marks that node dirty on every such success path: any successful descent may have changed the subtree (a value rewritten in place with equal weight changes neither the child pointer nor the weight), so the cached hashes on the path must be invalidated")
 	r.Rule("ORDER-survivor", "a node whose hash insert/delete schedules for deletion (tempDeleted) is not kept in the new trie on the same path: the hash of a child that is merely re-parented must not be scheduled")
 	r.Rule("DOM-range", "getBlockProof descends into child i only when block <= child.Weight() tested true, and continues the scan with block reduced by that child's weight")
+	r.Rule("DOM-sentinel", "a scan that keeps the number of the only matching slot of an N-slot array in one integer together with constants for 'none'/'several': every such constant lies outside [0,N), and the comparison that leads to the use of the integer as a slot number holds for every slot number and fails for every sentinel (decided by evaluating the comparison over the finite domains)")
 	r.NotDec = append(r.NotDec, "the numeric equalities themselves (total weight = sum of live weights, block ownership, root = independent computation)")
 	exhW(r, "EXH-W", []string{"insert", "delete", "getBlockProof", "markToCollect"})
 	depWeight(r)
@@ -32,6 +34,15 @@ func runC09(r *engine.Run) {
 	domDirtyPath(r)
 	orderSurvivor(r, "ORDER-survivor")
 	domRangeProof(r)
+	var wf []*ssa.Function
+	for _, f := range r.P.RepoFuncs() {
+		if f.Pkg != nil && strings.HasSuffix(f.Pkg.Pkg.Path(), pkgWMPT) {
+			wf = append(wf, f)
+		}
+	}
+	if n := domSentinel(r, "DOM-sentinel", wf); n < 1 {
+		r.Anchor("DOM-sentinel", fmt.Errorf("unresolved anchor: no single-slot scan with sentinels found in the weighted trie (delete's reduction step is expected to be one)"))
+	}
 }
 
 func wfn(r *engine.Run, rule, name string) *ssa.Function {
